@@ -524,12 +524,47 @@ def _consts_in(rv):
 _PROGS = {}
 
 
+class LazyProgs:
+    """Mapping cfg -> Program that parses a configuration's facts only when a rule asks for it."""
+
+    def __init__(self, configs, dirs, th):
+        self.configs, self.dirs, self.th = list(configs), dirs, th
+
+    def _get(self, cfg):
+        key = (self.th, cfg)
+        if key not in _PROGS:
+            _PROGS[key] = Program(cfg, self.dirs[cfg])
+        return _PROGS[key]
+
+    def __getitem__(self, cfg):
+        return self._get(cfg)
+
+    def __contains__(self, cfg):
+        return cfg in self.configs
+
+    def __iter__(self):
+        return iter(self.configs)
+
+    def __len__(self):
+        return len(self.configs)
+
+    def keys(self):
+        return list(self.configs)
+
+    def items(self):
+        return [(c, self._get(c)) for c in self.configs]
+
+    def values(self):
+        return [self._get(c) for c in self.configs]
+
+    def subset(self, names):
+        names = [c for c in self.configs if c in names]
+        return LazyProgs(names, self.dirs, self.th)
+
+    def loaded(self):
+        return {c: _PROGS[(self.th, c)] for c in self.configs if (self.th, c) in _PROGS}
+
+
 def load_programs(configs):
     dirs, th = F.ensure_facts(configs)
-    progs = {}
-    for cfg in configs:
-        key = (th, cfg)
-        if key not in _PROGS:
-            _PROGS[key] = Program(cfg, dirs[cfg])
-        progs[cfg] = _PROGS[key]
-    return progs, th
+    return LazyProgs(configs, dirs, th), th
